@@ -82,6 +82,41 @@ pub fn batches_to_rows(batches: &[Batch]) -> Vec<Value> {
     rows
 }
 
+pub type ExtraSession = glaredb_core::engine::session::Session<ThreadedNativeExecutor, NativeSystemRuntime>;
+
+/// Runs one statement on session `sid`: 0 is the engine's own single-user session, k >= 1 is the
+/// k-th additional session created with `Engine::new_session` (same engine, own temp catalog).
+pub fn run_stmt_on(
+    tokio_rt: &tokio::runtime::Runtime,
+    engine: &Engine,
+    extra: &mut Vec<ExtraSession>,
+    sid: usize,
+    sql: &str,
+) -> Value {
+    if sid == 0 {
+        return run_stmt(tokio_rt, engine, sql);
+    }
+    while extra.len() < sid {
+        match engine.engine.new_session() {
+            Ok(s) => extra.push(s),
+            Err(e) => return json!({ "err": format!("new_session: {e}") }),
+        }
+    }
+    let sess = &mut extra[sid - 1];
+    let res = catch_unwind(AssertUnwindSafe(|| {
+        tokio_rt.block_on(async {
+            let mut rs = sess.simple(sql).await?;
+            if rs.len() != 1 {
+                return Err(glaredb_error::DbError::new(format!("Expected 1 statement, got {}", rs.len())));
+            }
+            let mut q = rs.pop().unwrap();
+            let batches = q.output.collect().await?;
+            Ok::<_, glaredb_error::DbError>((batches, q.output_schema))
+        })
+    }));
+    finish_result(res)
+}
+
 pub fn run_stmt(tokio_rt: &tokio::runtime::Runtime, engine: &Engine, sql: &str) -> Value {
     let res = catch_unwind(AssertUnwindSafe(|| {
         tokio_rt.block_on(async {
@@ -90,6 +125,12 @@ pub fn run_stmt(tokio_rt: &tokio::runtime::Runtime, engine: &Engine, sql: &str) 
             Ok::<_, glaredb_error::DbError>((batches, q.output_schema))
         })
     }));
+    finish_result(res)
+}
+
+type StmtOutcome = std::thread::Result<Result<(Vec<Batch>, glaredb_core::arrays::field::ColumnSchema), glaredb_error::DbError>>;
+
+fn finish_result(res: StmtOutcome) -> Value {
     match res {
         Err(p) => {
             let msg = if let Some(s) = p.downcast_ref::<String>() {
@@ -164,13 +205,22 @@ pub fn main(_args: &[String]) -> i32 {
             o.flush().ok();
         }
         let engine = new_engine(&tokio_rt, threads);
+        let mut extra: Vec<ExtraSession> = Vec::new();
         let mut results = Vec::new();
         if let Some(stmts) = req["stmts"].as_array() {
             for s in stmts {
-                let sql = s.as_str().unwrap_or("");
-                results.push(run_stmt(&tokio_rt, &engine, sql));
+                // a statement is either "sql" (session 0) or [session id, "sql"]
+                if let Some(pair) = s.as_array() {
+                    let sid = pair.first().and_then(|v| v.as_u64()).unwrap_or(0) as usize;
+                    let sql = pair.get(1).and_then(|v| v.as_str()).unwrap_or("");
+                    results.push(run_stmt_on(&tokio_rt, &engine, &mut extra, sid, sql));
+                } else {
+                    let sql = s.as_str().unwrap_or("");
+                    results.push(run_stmt(&tokio_rt, &engine, sql));
+                }
             }
         }
+        drop(extra);
         let mut o = stdout.lock();
         writeln!(o, "{}", json!({"id": id, "results": results})).ok();
         o.flush().ok();
